@@ -435,13 +435,17 @@ pub struct Recovery {
     pub checksum_clean: bool,
     pub resumed: bool,
     pub resume_error: String,
+    /// directory state after the resume (commit + GC + writer dropped): non-dot files, managed list, files of meta.json
+    pub files_after: Vec<String>,
+    pub managed_after: Vec<String>,
+    pub living_after: Vec<String>,
 }
 
 /// Opens an image with the real code: Index::open, validate_checksum, full read of the ids,
 /// then a new writer + add + commit + garbage collection + read-back.
 pub fn recover(img: &BTreeMap<String, Vec<u8>>) -> Recovery {
     let vd = VerifDirectory::from_files(img);
-    let mut r = Recovery { opened: false, error: String::new(), ids: None, checksum_clean: false, resumed: false, resume_error: String::new() };
+    let mut r = Recovery { opened: false, error: String::new(), ids: None, checksum_clean: false, resumed: false, resume_error: String::new(), files_after: vec![], managed_after: vec![], living_after: vec![] };
     let index = match guarded(|| Index::open(vd.clone())) {
         Ok(Ok(ix)) => ix,
         Ok(Err(e)) => { r.error = format!("{e}"); return r; }
@@ -481,5 +485,25 @@ pub fn recover(img: &BTreeMap<String, Vec<u8>>) -> Recovery {
         Ok(Err(e)) => r.resume_error = format!("{e}"),
         Err(p) => r.resume_error = format!("panic: {p}"),
     }
+    let (f, m, l) = dir_state(&vd);
+    r.files_after = f; r.managed_after = m; r.living_after = l;
     r
+}
+
+/// (non-dot files present, persisted managed list, files meta.json references + meta.json)
+pub fn dir_state(vd: &VerifDirectory) -> (Vec<String>, Vec<String>, Vec<String>) {
+    let files: Vec<String> = vd.file_names().into_iter().filter(|n| !n.starts_with('.')).collect();
+    let managed = vd.raw(".managed.json").map(|b| managed_list(&b)).unwrap_or_default();
+    let mut living = vd.raw("meta.json").and_then(|b| meta_files(&b)).map(|x| x.0).unwrap_or_default();
+    living.retain(|f| !f.ends_with(".0.del") || vd.raw(f).is_some());
+    living.push("meta.json".to_string());
+    living.sort();
+    (files, managed, living)
+}
+
+pub fn managed_list(bytes: &[u8]) -> Vec<String> {
+    let v: Value = serde_json::from_slice(bytes).unwrap_or(Value::Null);
+    let mut out: Vec<String> = v.as_array().map(|a| a.iter().filter_map(|x| x.as_str().map(|s| s.to_string())).collect()).unwrap_or_default();
+    out.sort();
+    out
 }
